@@ -118,7 +118,7 @@ theorem redactScalarValue_eq_gen (g : Globals) (fuel : Nat) (kp : List Str) (v :
   redactScalarValue_eq g Generated.tables fuel kp v S sel hne hf Gen_emailPH
 
 /-- non-vacuity: a concrete call evaluates, in the translated function itself, to the class placeholder -/
-example : redactScalarValue ⟨"X".toList, false, false, false, false, false, none, none, fun _ _ => none, fun _ => [], fun _ => none, fun _ => none, fun _ _ _ => true, [], fun _ => none, fun s => s, fun _ _ _ _ => none⟩ Generated.tables 5
+example : redactScalarValue { Globals.inert with redactedString := "X".toList } Generated.tables 5
     ["a".toList, "$oid".toList] (.str "507f1f77bcf86cd799439011".toList) false false = some (.str Generated.tables.objectId) := by
   rfl
 
